@@ -1,6 +1,7 @@
 package slip
 
 import (
+	"encoding/json"
 	"strconv"
 	"time"
 
@@ -94,6 +95,9 @@ func VerifC18Scalar(kind int, n int) {
 	case 6:
 		x := vrt.Int64("xi64")
 		v, wantInt, want = x, true, x
+	case 19: // json.Number holding an integer (what ojg delivers for integers of 19 and more digits)
+		zzC18JSONNumber()
+		return
 	case 7:
 		if n == 1 {
 			zzC18BigUnsigned(false)
@@ -209,6 +213,27 @@ func zzC18BigUnsigned(as64 bool) {
 	vrt.Assert(out.class != 3, "Go run-time fault in the bridge")
 	rs, ok := out.val.(string)
 	vrt.Assert(out.class == 0 && ok && rs == strconv.FormatUint(x, 10), "an unsigned integer from 2^63 on does not come back as its decimal text")
+}
+
+// zzC18JSONNumber: SimpleObject of a json.Number with integer text: the exact
+// integer, whatever its size and sign (Simplify gives an int64 inside the
+// fixnum range and the decimal text of the bignum outside).
+func zzC18JSONNumber() {
+	texts := []string{"0", "7", "-7", "9223372036854775807", "9223372036854775808", "9223372036854775809", "12345678901234567890",
+		"18446744073709551615", "18446744073709551616", "18446744073709551617", "-9223372036854775808", "-9223372036854775809",
+		"-18446744073709551615", "100000000000000000000000000000", "-100000000000000000000000000000"}
+	t := texts[vrt.Choice("num", len(texts))]
+	out := zzC18Trip(json.Number(t))
+	vrt.Reach("compared")
+	vrt.Assert(out.class != 3, "Go run-time fault in the bridge")
+	vrt.Assert(out.class == 0, "json.Number with integer text signals")
+	if x, err := strconv.ParseInt(t, 10, 64); err == nil {
+		ri, ok := out.val.(int64)
+		vrt.Assert(ok && ri == x, "json.Number inside the fixnum range does not come back as that integer")
+		return
+	}
+	rs, ok := out.val.(string)
+	vrt.Assert(ok && rs == t, "json.Number beyond the fixnum range does not come back as the decimal text of that integer")
 }
 
 // zzC18Gen builds a Go value from a shape text and, independently, its
